@@ -37,13 +37,13 @@ CHECKS = {
    text="Seeded search over generated drivers and loop bodies (and, one run in four, loop bodies of map operations on the C13 map drivers of every key kind followed by 'discard every map'); the oracle is exact equality of live blocks and live bytes at the end of every iteration (the reachable state is identical by construction) plus a no-persistent-growth check of the real heap extent. No fault or schedule is injected: this property has no such dimension, the simulator contributes the observation point and the seeded histories. Evidence, not proof.",
    note="loop bodies are sequences of driver operations; acyclicity is guaranteed by the generator's level order and rank guard, not checked at run time", ref="DESIGN.md section 4 C12"),
  "C13": dict(level="exploration", technique="deterministic simulation of the allocator under compiled Wa map drivers: generated drivers per key kind x value kind compiled by the real pipeline, seeded operation histories checked step by step against a Go map reference model, executed under plain and under seeded allocator fault modes (poison on free, dirty fresh memory, immediate reuse, quarantine, scattered placement) with double-free / zeroing / write-after-free monitors; shrunk replayable tapes",
-   text="Model-based seeded search: every put/overwrite/get/comma-ok/delete/len/range/alias result of the real runtime map (19 key kinds - small and range-spanning integers, valid and invalid-UTF-8 strings, floats, bools, structs, separately allocated and same-allocation pointers, interfaces with mixed dynamic types - x 4 value kinds; operations include nested ranges and ranges that insert or delete while walking) is compared with a Go map model, on histories with ascending/descending/delete-in-order/churn phases and key pools from 2 to 2000, first on the plain allocator and again under an injected allocator fault mode that makes stale tree-node pointers visible. Evidence, not proof.",
+   text="Model-based seeded search: every put/overwrite/get/comma-ok/delete/len/range/alias result of the real runtime map (23 key kinds - small and range-spanning integers, valid, prefix-related and invalid-UTF-8 strings, f32/f64 floats, bools, structs of one and of four field kinds, separately allocated and same-allocation pointers, interfaces with mixed dynamic types - x 5 value kinds; operations include nested ranges and ranges that insert, delete the visited key or delete other keys while walking, judged by Go's rules) is compared with a Go map model, on histories with ascending/descending/delete-in-order/churn phases and key pools from 2 to 2000, first on the plain allocator and again under an injected allocator fault mode that makes stale tree-node pointers visible. Evidence, not proof.",
    note="trusts the Go model and the key/value encodings mirrored in Go; NaN keys excluded; iteration order not compared; the allocator seam is a WAT text rewrite executed by the repository's own assembler and wazero", ref="DESIGN.md section 4 C13"),
  "C21": dict(level="exploration", technique="deterministic whole-system simulation of the language server inside a testing/synctest bubble: real LSPServer.Run, handler chain, jsonrpc2 stream/connection and fakenet feeders; simulated editor, blocking stdin pipe (split deliveries, short reads, cut inside a message) and a seeded token scheduler that decides at every statement of the lsp/jsonrpc2/fakenet packages (AST-inserted yields, simulator-aware mutexes, wrapped go statements) which goroutine runs next; oracle = editor model equality at drain points; shrunk replayable tapes",
    text="Seeded search over editing sessions (full/incremental/multi-change/invalid edits over Unicode text with astral characters and CRLF, .wa and .wz documents, requests and cancels in flight), delivery schedules and goroutine interleavings of the real server. At every drain point and at the end, the server's text of each open document must equal the editor model's after all completely delivered notifications; invalid edits and half-delivered notifications must leave it unchanged; Run must return after EOF; no panic or deadlock. 3200 runs were replayed three times across GOMAXPROCS 1/2/4/16 under load with identical event-log digests. Evidence, not proof.",
    note="interleavings are explored at statement granularity in the rewritten packages; code that is not rewritten runs atomically; positions the LSP specification leaves ambiguous are not generated", ref="DESIGN.md section 4 C21"),
  "C25": dict(level="fault_enumeration", technique="deterministic simulation of the byte-stream transport: seeded packet sequences through the real SLIP/SLIPMUX writer and reader, complete enumeration of every single transient-empty-read position x kind per stream and of every single failing Write call of the sender (retry / give up), plus seeded multi-stall / bounded-chunk schedules; shrunk replayable tapes",
-   text="Every generated stream is read back fault-free and under every single stall position and kind (complete for one fault per stream up to the size limit), then under seeded multi-fault schedules; payloads and frame types must equal what was written and every packet must be delivered once the bytes are available. Streams are sampled, the single-fault space per stream is enumerated.",
+   text="Every generated stream (written through one writer, as a sender does) is read back fault-free and under every single stall position and kind (complete for one fault per stream up to the size limit), x2/x3 repeated stalls and stall pairs, and after every single failing Write call of the sender (retry or give up: exactly the packets whose WritePacket returned nil must arrive), then under seeded multi-fault schedules; payloads and frame types must equal what was written and every packet must be delivered once the bytes are available. Streams are sampled, the single-fault space per stream is enumerated.",
    note="trusts the harness consumer loop (concatenate isPrefix fragments) as the documented reader protocol; transient reads limited to (0,nil),(0,EOF),(0,timeout); no concurrent writers", ref="DESIGN.md section 4 C25"),
  "C26": dict(level="fault_enumeration", technique="deterministic simulation of the byte stream under bufio: seeded messages of every registered type (fields filled by reflection from the tape) through the real DAP writer/reader/decoder, complete enumeration of every single split offset and every cut offset per stream, bounded-chunk reads, seeded short-read/empty-burst/cut schedules; shrunk replayable tapes",
    text="Every generated stream is read back fault-free, with all reads bounded to 1/2/3/7 bytes, under every single split position and every cut offset (complete per stream up to the size limit), and under seeded multi-fault schedules. Decoded messages must have the written dynamic type and marshal to identical JSON; after a cut the reader must return the completely delivered messages and then an error, never a message that was not written. The constructor tables are also checked against the schema naming convention.",
@@ -52,7 +52,7 @@ CHECKS = {
    text="Seeded search over programs of the repository's corpus, configurations and map-order schedules. Any permutation is a legal Go execution, so a hash difference between the canonical and a permuted order is a real nondeterminism of the compiler; the minimised replay names the source position of the range statement whose order reaches the output. A tape-drawn history probe (compile P, Q, P with the canonical order), repeat compiles in one process and baselines across 16 processes cover state leaking between compiles and sources outside the seam. Evidence, not proof.",
    note="only map iteration order is behind the seam; addresses, goroutines and time are covered by repeat/cross-process comparison only; pointer/interface keys get first-store serial numbers as canonical order (nonreplayable_keys probe must be 0)", ref="DESIGN.md section 4 C27"),
  "C28": dict(level="exploration", technique="deterministic simulation of concurrent API callers: every scenario runs in its own cold OS process under a token scheduler with seeded PCT pre-emption points over ~4600 AST-inserted yield points (every statement touching a package-level variable and every function entry on the API path, 300 rewritten files), simulator-aware Mutex/RWMutex/Once, canonical map order for exact replay, and a vector-clock happens-before monitor over every map access; oracle = each call's result equals its solo result in a cold process; shrunk replayable tapes",
-   text="Seeded search over caller/call mixes (build, run, format, syntax detection on well-typed, ill-typed and unparsable .wa/.wz programs, with default configurations or clones of one shared base configuration with different targets) and pre-emption placements: uniform over all yields, over the 'interesting' yields (writes of package-level variables, lock boundaries), per interesting site, and systematic lock-window sweeps. A call whose result differs from the same call run alone, a panic, a scheduler-detected deadlock, a dead child process, or two happens-before-unordered accesses to one Go map (one a write) by different callers is a violation. The sequential run of each scenario in one process is checked against the solo results as well. Evidence, not proof.",
+   text="Seeded search over caller/call mixes (build, run, format, syntax detection on well-typed, ill-typed and unparsable .wa/.wz programs, with default configurations or clones of one shared base configuration with different targets) and pre-emption placements: uniform over all yields, over the 'interesting' yields (writes of package-level variables, lock boundaries), per interesting site, and two systematic sweeps enumerated by run index: lock-window sweeps and shared-storage sweeps (pre-emption right after a call that received or handed out package-level storage, the other callers run to completion in between). Configurations include different targets and word-size/alignment settings; sources include CRLF line endings. A call whose result differs from the same call run alone, a panic, a scheduler-detected deadlock, a dead child process, or two happens-before-unordered accesses to one Go map (one a write) by different callers is a violation. The sequential run of each scenario in one process is checked against the solo results as well. Evidence, not proof.",
    note="interleavings at yield granularity (statements touching package-level variables, function entries, lock boundaries, and the point right after a call that receives package-level storage by reference); the vendored wazero engine and the standard library run atomically; memory-model races on non-map data that change no result are out of reach and are not reported", ref="DESIGN.md section 4 C28"),
 }
 ORDER = ["C10","C11","C12","C13","C21","C25","C26","C27","C28"]
